@@ -63,7 +63,7 @@ PROBES = {"ingest_failed_clean": 1, "ingest_succeeded_mutated": 1,
 MIN_BUDGET = 60
 
 PATHS_DISK = ["add_thin_pack", "add_pack", "add_pack_data", "reader",
-              "copier"]
+              "copier", "receive_pack"]
 PATHS_MEM = ["add_thin_pack", "add_pack", "add_pack_data"]
 VICTIMS = ["pack", "idx", "loose", "index", "packed-refs", "commit-graph",
            "midx"]
@@ -308,8 +308,48 @@ def cuts_for(mode, n, rng):
     return cuts
 
 
-def ingest(store, path, data, cuts, is_disk):
+class UnpackRefused(Exception):
+    """receive-pack answered 'unpack <error>': an ordinary, reported failure."""
+
+
+INCOMING = b"refs/heads/incoming"
+
+
+def receive_pack(repo, data, cuts, new_id):
+    """One push of ``data`` through ReceivePackHandler (the server's ingestion
+    path): a create command for refs/heads/incoming, then the pack."""
+    from dulwich.protocol import ReceivableProtocol, pkt_line
+    from dulwich.server import DictBackend, ReceivePackHandler
+    req = pkt_line(b"0" * 40 + b" " + new_id + b" " + INCOMING +
+                   b"\0report-status") + b"0000"
+    st = ChunkedStream(req + data, [len(req)] + list(cuts), "eof")
+    out = []
+    proto = ReceivableProtocol(st.recv, out.append, rbufsize=4096)
+    h = ReceivePackHandler(DictBackend({b"/": repo}), [b"/"], proto)
+    h.handle()
+    reply = b"".join(out)
+    lines = []
+    pos = 0
+    while pos + 4 <= len(reply):
+        n = int(reply[pos:pos + 4], 16)
+        if n == 0:
+            pos += 4
+            continue
+        lines.append(reply[pos + 4:pos + n])
+        pos += n
+    # (the reply starts with the ref advertisement)
+    rep = [ln for ln in lines if ln.startswith(b"unpack ")]
+    lines = lines[lines.index(rep[0]):] if rep else []
+    first = lines[0].rstrip(b"\n") if lines else b"(no report)"
+    if first != b"unpack ok":
+        raise UnpackRefused(first.decode("utf-8", "replace")[:200])
+    return st, lines
+
+
+def ingest(store, path, data, cuts, is_disk, repo=None, new_id=None):
     """Run one ingestion. -> ('ok'|'raised', detail, stream)."""
+    if path == "receive_pack":
+        return receive_pack(repo, data, cuts, new_id or b"1" * 40)[0]
     from dulwich.object_format import DEFAULT_OBJECT_FORMAT
     from dulwich.pack import PackStreamCopier, PackStreamReader
     from dulwich.protocol import ReceivableProtocol
@@ -393,6 +433,8 @@ class Bench:
         self.pre = None
         self.store = None
         self.repo = None
+        # what a push of the fixture pack asks refs/heads/incoming to name
+        self.new_id = None
         if kind == "disk":
             r = util.init_repo(self.tmpl, bare=True)
             self._fill(r.object_store)
@@ -466,7 +508,8 @@ def judge_ingest(ctx, bench, path, label, data, cuts, valid, expected, cls,
     would have added; asked of the same store object straight after a
     failure, before anything makes it rescan its directory."""
     import tracemalloc
-    store_path = path in ("add_thin_pack", "add_pack", "add_pack_data")
+    store_path = path in ("add_thin_pack", "add_pack", "add_pack_data",
+                          "receive_pack")
     tag = f"{path}/{bench.kind}/{cls}"
     outcome = None
     exc = None
@@ -479,7 +522,8 @@ def judge_ingest(ctx, bench, path, label, data, cuts, valid, expected, cls,
         old = signal.signal(signal.SIGALRM, _alarm)
         signal.setitimer(signal.ITIMER_REAL, allowance)
         try:
-            st = ingest(bench.store, path, data, cuts, bench.kind == "disk")
+            st = ingest(bench.store, path, data, cuts, bench.kind == "disk",
+                        repo=bench.repo, new_id=bench.new_id)
             outcome = "ok"
         except Timeout:
             outcome = "timeout"
@@ -589,6 +633,23 @@ def judge_ingest(ctx, bench, path, label, data, cuts, valid, expected, cls,
         bench.reset()
         return
     fresh = bench.fresh_snapshot()
+    if path == "receive_pack" and bench.repo is not None:
+        try:
+            created = bench.repo.refs.read_ref(INCOMING)
+        except Exception:  # noqa: BLE001
+            created = None
+        if created is not None:
+            if outcome == "raised":
+                ctx.v(f"ref-updated-after-failed-unpack/{tag}",
+                      f"{label}: {INCOMING!r} -> {created!r} although the "
+                      f"push failed ({exc!r})"[:300])
+            elif created not in (now or {}):
+                ctx.v(f"ref-names-missing-object/{tag}",
+                      f"{label}: {INCOMING!r} -> {created!r}")
+            try:
+                del bench.repo.refs[INCOMING]
+            except Exception:  # noqa: BLE001
+                pass
     if outcome == "raised":
         ctx.stat("probe:ingest_failed_clean")
         if valid is not None and len(data) < len(valid):
@@ -663,6 +724,7 @@ def run_stream(plan, ctx, root):
     rng = random.Random(derive_seed(plan["seed"], "c04s"))
     pack, layout, expected, ext = make_base(plan["base"])
     bench = Bench(plan["store"], root, ext)
+    bench.new_id = sorted(expected)[0]
     try:
         # the valid pack must be accepted (sanity of the harness)
         judge_ingest(ctx, bench, plan["path"], "valid", pack, [], pack,
